@@ -127,6 +127,29 @@ func FormatSource(src []byte) (out []byte, err error) {
 	return format.Source(src)
 }
 
+// NodeStable reports whether go/format.Node, applied to the tree go/parser returns for src,
+// reproduces src. dst prints through format.Node, gofmt through format.Source, and the two differ
+// on some inputs (format.Node prints, re-parses and sorts imports: with a form feed inside an
+// import path it loses a spec). Byte-level fuzz targets only judge inputs on which the reference
+// printer itself is stable.
+func NodeStable(src []byte) (ok bool) {
+	defer func() {
+		if recover() != nil {
+			ok = false
+		}
+	}()
+	fset := token.NewFileSet()
+	f, err := parser.ParseFile(fset, "", src, parser.ParseComments)
+	if err != nil {
+		return false
+	}
+	var buf bytes.Buffer
+	if err := format.Node(&buf, fset, f); err != nil {
+		return false
+	}
+	return bytes.Equal(buf.Bytes(), src)
+}
+
 // Canon applies format.Source until a fixpoint (at most 4 rounds). fix reports whether a
 // fixpoint was reached; err is the parse error if src is not valid Go.
 func Canon(src []byte) (out []byte, fix bool, err error) {
